@@ -72,6 +72,9 @@ FftOK(e) ==
      \* rotation and Lagrange basis evaluations, incl. negative and beyond-n rotations
      /\ \A i \in 1..Len(e.rots) : e.rot[i] = M(e.x * PowZ(w, e.rots[i]))
      /\ \A i \in 1..Len(e.rots) : e.l_i[i] = LagrangeAt(w, n, e.rots[i], e.x)
+     \* a polynomial in Lagrange form rotated by r: the value at omega^t becomes the value at omega^(t + r), indices mod n
+     \* (judged for the rotations a circuit can name, -3..3)
+     /\ \A i \in 1..Len(e.rots) : (e.rots[i] >= -3 /\ e.rots[i] <= 3) => e.polyrot[i] = [t \in 1..n |-> e.input[((t - 1 + e.rots[i] + 64 * n) % n) + 1]]
      \* division by (X - z): coeff(X) = kate(X) * (X - z) + coeff(z)
      /\ e.evalz = Eval(e.coeff, e.z)
      /\ Len(e.kate) = n - 1
